@@ -24,7 +24,7 @@ import vlib  # noqa: E402
 
 
 def make_base_spark(session, cols, rows):
-    ddl = ", ".join(f"{c} bigint" for c in cols)
+    ddl = ", ".join((f"{c} bigint" if c02.plain_ident(c) else f"`{c}` bigint") for c in cols)
     return session.createDataFrame([tuple(r) for r in rows], schema=ddl)
 
 
@@ -62,6 +62,14 @@ def standard_cases():
     ands = [c for c in rest if c["origin"].split(":")[3:4] == ["and"]]
     rest = [c for c in rest if c not in ands]
     cases += keep + ands[:60] + rest[:400] + chains[:160] + spelled + rnd
+    # families added later (their own generator state, so that the sample above stays what it was)
+    rng2 = random.Random("c02-oracle-2")
+    quoted = c02.quoted_cases(rng2, False)
+    star = c02.star_cases(rng2, False)
+    sql = c02.sql_cases(rng2, False)
+    for fam, n in ((quoted, 260), (star, 520), (sql, 300)):
+        rng2.shuffle(fam)
+        cases += fam[:n]
     return cases
 
 
@@ -82,6 +90,13 @@ def main():
     for c, r, o in zip(cases, res, outs):
         rec.append({"frames": c["frames"], "origin": c.get("origin", ""), "pyspark": r, "scope": o.get("scope", [])})
     path = os.path.join(HERE, "c02_pyspark.json")
+    # programs recorded earlier that today's generator no longer produces stay in the file (the recorded set only grows)
+    if os.path.exists(path) and "--fresh" not in sys.argv:
+        have = {vlib.digest(r["frames"]) for r in rec}
+        for r in json.load(open(path))["cases"]:
+            if vlib.digest(r["frames"]) not in have:
+                rec.append(r)
+                have.add(vlib.digest(r["frames"]))
     with open(path, "w") as f:
         json.dump({"_doc": "PySpark 3.5.9 (local JVM) results for C02 programs; rebuilt by tools/oracle/mk_c02_pyspark.py", "cases": rec}, f, separators=(",", ":"))
     print(f"wrote {len(rec)} programs to {path}", file=sys.stderr)
